@@ -215,6 +215,7 @@ EXTRA3 = {
     "C15": " Subscribe / unsubscribe of the same group in flight together, with mixed answers to the two writes.",
     "C16": " A write after an earlier write on the same EZSP object during which the NCP could not report the setting; a write with another coroutine reading configuration values in keyword form.",
     "C17": " Hand-over between two operations waiting for the same status (the first one has seen its event and waits for its response when the second registers).",
+    "C18": " The sweep is repeated after library activity in the same process (EZSP resets, two resets in flight together, version switches).",
     "C19": " Two feeds in flight together, both failing.",
     "C20": " Calls made while an earlier plain call is executing on the owner's thread (real EventLoopThread).",
 }
